@@ -209,7 +209,7 @@ theorem conflicting_timestamp_freezes (H keccak : Bytes → Bytes) (s : State) (
     (h secs ts : Nat)
     (hact : s.cs.frozen = false)
     (hsig : verifySignatures H s.cs pr.data pr.sigs tagState = .ok ())
-    (hdec : pr.decState = some (h, secs))
+    (hdec : pr.stateAtt = some (h, secs))
     (hstored : s.cons.get (0, h) = some ts)
     (hdiff : ts ≠ nanos secs) :
     step H keccak s (.update (some pr)) = (freeze s, .ok) ∧ (freeze s).cs.frozen = true ∧
@@ -223,7 +223,7 @@ theorem freeze_only_on_conflict (H keccak : Bytes → Bytes) (s : State) (msg : 
     (hact : s.cs.frozen = false)
     (hfr : (step H keccak s (.update msg)).1.cs.frozen = true) :
     ∃ pr h secs ts, msg = some pr ∧ verifySignatures H s.cs pr.data pr.sigs tagState = .ok () ∧
-      pr.decState = some (h, secs) ∧ s.cons.get (0, h) = some ts ∧ ts ≠ nanos secs := by
+      pr.stateAtt = some (h, secs) ∧ s.cons.get (0, h) = some ts ∧ ts ≠ nanos secs := by
   cases msg with
   | none => simp [step, hact, verifyClientMessage] at hfr
   | some pr =>
@@ -293,52 +293,60 @@ theorem frozen_monotone (H keccak : Bytes → Bytes) (s : State) (ops ops' : Lis
 
 /-! ### attested seconds vs stored nanoseconds -/
 
-/-- The property read on the attested value (seconds, as signed): two accepted updates for one height that
-attest different timestamps freeze the client. -/
-def conflicting_seconds_freeze_full : Prop :=
-  ∀ (H keccak : Bytes → Bytes) (s : State) (pr pr' : Proof) (h secs secs' : Nat),
-    secs < 2 ^ 64 → secs' < 2 ^ 64 → secs ≠ secs' →
-    s.cs.frozen = false → s.cons.get (0, h) = none →
-    pr.decState = some (h, secs) → pr'.decState = some (h, secs') →
-    verifySignatures H s.cs pr.data pr.sigs tagState = .ok () →
-    verifySignatures H s.cs pr'.data pr'.sigs tagState = .ok () →
-    (run H keccak s [.update (some pr), .update (some pr')]).1.cs.frozen = true
+/-- an accepted state attestation carries a timestamp whose nanosecond conversion does not wrap -/
+theorem stateAtt_bound (pr : Proof) (h secs : Nat) (hd : pr.stateAtt = some (h, secs)) :
+    secs * 1000000000 < 2 ^ 64 := by
+  unfold Proof.stateAtt at hd
+  cases hdec : pr.decState with
+  | none => simp [hdec] at hd
+  | some hs =>
+    obtain ⟨h', secs'⟩ := hs
+    simp only [hdec] at hd
+    by_cases hb : secs' > maxSeconds
+    · simp [hb] at hd
+    · simp only [hb, if_false, Option.some.injEq, Prod.mk.injEq] at hd
+      obtain ⟨_, rfl⟩ := hd
+      simp only [maxSeconds] at hb
+      omega
 
-/-- It holds whenever both attested timestamps fit uint64 nanoseconds (any date before the year 2554). -/
-theorem conflicting_seconds_freeze_partial
+/-- **The property read on the attested value (seconds, as signed)**: two accepted updates for one height
+that attest different timestamps freeze the client. (Since fix b1892f8 `ABIDecodeStateAttestation` rejects
+seconds whose nanosecond conversion would wrap in uint64; before it, 1 s and 1 s + 2^55 s were stored as the
+same value and the second update was a no-op.) -/
+theorem conflicting_seconds_freeze
     (H keccak : Bytes → Bytes) (s : State) (pr pr' : Proof) (h secs secs' : Nat)
-    (hb : secs * 1000000000 < 2 ^ 64) (hb' : secs' * 1000000000 < 2 ^ 64) (hne : secs ≠ secs')
+    (hne : secs ≠ secs')
     (hact : s.cs.frozen = false) (hfresh : s.cons.get (0, h) = none)
-    (hdec : pr.decState = some (h, secs)) (hdec' : pr'.decState = some (h, secs'))
+    (hdec : pr.stateAtt = some (h, secs)) (hdec' : pr'.stateAtt = some (h, secs'))
     (hsig : verifySignatures H s.cs pr.data pr.sigs tagState = .ok ())
     (hsig' : verifySignatures H s.cs pr'.data pr'.sigs tagState = .ok ()) :
     (run H keccak s [.update (some pr), .update (some pr')]).1.cs.frozen = true := by
+  have hb := stateAtt_bound pr h secs hdec
+  have hb' := stateAtt_bound pr' h secs' hdec'
   have hn : nanos secs ≠ nanos secs' := by
     unfold nanos
     rw [Nat.mod_eq_of_lt hb, Nat.mod_eq_of_lt hb']
     omega
   have hne' : (nanos secs != nanos secs') = true := by simpa using hn
   have hget : Cons.get (Cons.set s.cons (0, h) (nanos secs)) (0, h) = some (nanos secs) := by
-    simp [Cons.get, Cons.set, List.lookup]
+    simp [Cons.get, Cons.set]
   have hsig'' : ∀ l f, verifySignatures H { s.cs with latest := l, frozen := f } pr'.data pr'.sigs tagState
       = .ok () := fun _ _ => hsig'
   simp [run, step, hact, verifyClientMessage, hsig, hsig'', checkForMisbehaviour, hdec, hdec', hfresh,
     updateState, hget, hne', freeze]
 
-/-- **The full statement is false of the code**: `timestampSeconds * nanosPerSecond` wraps in uint64, so
-the attested timestamps 1 s and 1 s + 2^55 s are stored as the same nanosecond value and the second
-update is accepted as a no-op instead of freezing the client. (Replayed on the real code by the
-harness monitor `attest`, key "timestamp-wrap-no-freeze".) -/
-theorem conflicting_seconds_freeze_full_false : ¬ conflicting_seconds_freeze_full := by
-  intro hfull
-  let H : Bytes → Bytes := fun x => x
-  let s : State := ⟨⟨[7], 1, 0, false⟩, []⟩
-  let pr : Proof := ⟨[], [Sig.signed 7 (tagged H tagState [])], some (5, 1), none⟩
-  let pr' : Proof := ⟨[1], [Sig.signed 7 (tagged H tagState [1])], some (5, 1 + 2 ^ 55), none⟩
-  have := hfull H H s pr pr' 5 1 (1 + 2 ^ 55) (by decide) (by decide) (by decide) rfl rfl rfl rfl
-    rfl rfl
-  revert this
-  decide
+/-- an update whose attested seconds would overflow is never accepted: `CheckForMisbehaviour` cannot decode
+it (the transaction panics / fails) and the state is unchanged -/
+theorem overflowing_timestamp_rejected (H keccak : Bytes → Bytes) (s : State) (pr : Proof) (h secs : Nat)
+    (hdec : pr.decState = some (h, secs)) (hbig : secs > maxSeconds) :
+    (step H keccak s (.update (some pr))).1 = s ∧ (step H keccak s (.update (some pr))).2 ≠ .ok := by
+  have hst : pr.stateAtt = none := by simp [Proof.stateAtt, hdec, hbig]
+  cases hf : s.cs.frozen with
+  | true => simp [step, hf]
+  | false =>
+    cases hs : verifySignatures H s.cs pr.data pr.sigs tagState with
+    | error e => simp [step, hf, verifyClientMessage, hs]
+    | ok u => simp [step, hf, verifyClientMessage, hs, checkForMisbehaviour, hst]
 
 /-! ### non-vacuity -/
 
